@@ -139,6 +139,7 @@ type Exec struct {
 	assumeBlock []int         // origin block of each assumption
 	reach       map[int]map[int]bool // reach[a][b]: block a reaches block b in the top-frame CFG (reflexive)
 	specAppBlk  map[string]int
+	lcsArgs     map[string][]Term
 	readInv     bool // wrap() is being applied to a value read from memory
 	trusted     map[string]bool // trusted (assumed) contracts used
 	cardFacts   map[string]bool
@@ -709,6 +710,12 @@ func (e *Exec) mergeVals(out *State, sts []*State, vs []Val, conds []Term, name 
 			if len(sts) == len(vs) {
 				if _, ok := sts[i].mem[vs[i].R]; ok {
 					ti = e.toTerm(sts[i], vs[i])
+					found = true
+				}
+			}
+			if !found {
+				if _, ok := out.mem[vs[i].R]; ok {
+					ti = e.toTerm(out, vs[i])
 					found = true
 				}
 			}
